@@ -54,6 +54,9 @@ CONSTANTS N,                          \* ticks per revolution
           MaxJoinSteps,               \* the site may join after 0..MaxJoinSteps scenario steps
           PriorAngles,                \* Earth angles at which the site's configuration OBJECT may
                                       \* already have been converted (by an earlier scenario)
+          PriorLonShifts,             \* the same agent id may have referred to ANOTHER site earlier in the
+                                      \* process (that site's longitude = lon + shift)
+          MemoIgnoresSite,            \* FALSE = as designed
           Zones,                      \* classes of the HOST's local time zone: <<kind, afterSteps, jump>>
                                       \*   "utc" / "fixed" offset / "dst": a zone with daylight saving whose
                                       \*   offset changes by `jump` seconds after `afterSteps` steps of the run
@@ -64,8 +67,10 @@ CONSTANTS N,                          \* ticks per revolution
 
 VARIABLES pc, lon, theta0, startSec, dt, plan, invErr, clockSec, k, siteEpoch, inertial, vel, join, siteLon,
           first,      \* the configuration object: Earth angle of its first conversion, -1 = never converted
-          zone        \* the host's time zone class (part of the environment the run is posed in)
-vars == <<pc, lon, theta0, startSec, dt, plan, invErr, clockSec, k, siteEpoch, inertial, vel, join, siteLon, first, zone>>
+          zone,       \* the host's time zone class (part of the environment the run is posed in)
+          prevLon     \* the site the agent's id referred to earlier in this process, -1 = the id is new
+vars == <<pc, lon, theta0, startSec, dt, plan, invErr, clockSec, k, siteEpoch, inertial, vel, join, siteLon, first, zone,
+          prevLon>>
 
 Theta(t)      == (theta0 + t) % N                \* Earth angle at scenario second t
 \* ecef2eci(x_ecef, start + e), position angle; x_ecef is what the dynamics captured (siteLon)
@@ -89,24 +94,29 @@ InvErrs == IF InvertStartBySecTruncation /\ startSec # 0 THEN {0, -1} ELSE {0}
 
 Init == /\ pc = "start" /\ lon = 0 /\ theta0 = 0 /\ startSec = 0 /\ dt = 0 /\ plan = <<>> /\ invErr = 0
         /\ clockSec = 0 /\ k = 0 /\ siteEpoch = 0 /\ inertial = 0 /\ vel = Quarter
-        /\ join = 0 /\ siteLon = 0 /\ first = -1 /\ zone = UtcZone
+        /\ join = 0 /\ siteLon = 0 /\ first = -1 /\ zone = UtcZone /\ prevLon = -1
 
 \* (the configuration object is fresh, or an earlier scenario with another start instant was
 \*  built from it: its state was converted at that scenario's start angle)
 PoseSite  == /\ pc = "start" /\ \E g \in Lons, t \in Theta0s : lon' = g /\ theta0' = t
-             /\ \E f \in PriorAngles \cup {-1} : first' = f
+             \* history of the process: nothing; the configuration OBJECT was converted before; or the
+             \* agent's ID was used before for a facility at another site (a scenario with the same start
+             \* instant built earlier in the process, or the sensor removed and added again elsewhere)
+             /\ \/ first' = -1 /\ prevLon' = -1
+                \/ \E f \in PriorAngles : first' = f /\ prevLon' = -1
+                \/ \E sh \in PriorLonShifts : first' = -1 /\ prevLon' = (lon' + sh) % N
              /\ \E z \in Zones : zone' = z
              /\ pc' = "site"
              /\ UNCHANGED <<startSec, dt, plan, invErr, clockSec, k, siteEpoch, inertial, vel, join, siteLon>>
 PoseStart == /\ pc = "site"
              /\ \E s \in StartSecs, st \in Dts, p \in Plans : startSec' = s /\ dt' = st /\ plan' = p
              /\ pc' = "posed"
-             /\ UNCHANGED <<lon, theta0, invErr, clockSec, k, siteEpoch, inertial, vel, join, siteLon, first, zone>>
+             /\ UNCHANGED <<lon, theta0, invErr, clockSec, k, siteEpoch, inertial, vel, join, siteLon, first, zone, prevLon>>
 \* the scenario steps before the site exists (a sensor added mid-run: Scenario.addSensor or a
 \* sensor-addition event): only the clock advances
 Wait == /\ pc = "posed" /\ join < MaxJoinSteps /\ dt > 0
         /\ clockSec' = clockSec + dt /\ join' = join + 1
-        /\ UNCHANGED <<pc, lon, theta0, startSec, dt, plan, invErr, k, siteEpoch, inertial, vel, siteLon, first, zone>>
+        /\ UNCHANGED <<pc, lon, theta0, startSec, dt, plan, invErr, k, siteEpoch, inertial, vel, siteLon, first, zone, prevLon>>
 \* ScenarioBuilder / Scenario.addSensor at scenario second clockSec (0 unless the site joins late):
 \*  - dynamicsFactory: the dynamics recovers the start datetime from the start Julian date and
 \*    captures the site's Earth-fixed position, as DESIGNED from the configuration at the start
@@ -120,13 +130,16 @@ Wait == /\ pc = "posed" /\ join < MaxJoinSteps /\ dt > 0
 Build == /\ pc = "posed" /\ \E e \in InvErrs : invErr' = e
          /\ LET f1    == IF first = -1 THEN theta0 ELSE first          \* after the factory's conversion
                 atCap == IF CaptureAtJoinEpoch THEN Convert(first, Theta(clockSec)) ELSE Convert(first, theta0)
-            IN /\ siteLon' = (atCap - theta0) % N                     \* eci2ecef(..., start epoch)
+            \* eci2ecef(..., start epoch) - as DESIGNED from the CURRENT configuration only; the named
+            \* deviation MemoIgnoresSite = TRUE hands back the dynamics built earlier for the same id
+            \* (a memo keyed without the location), which still carries the earlier site
+            IN /\ siteLon' = IF MemoIgnoresSite /\ prevLon # -1 THEN prevLon ELSE (atCap - theta0) % N
                /\ inertial' = Convert(f1, Theta(clockSec))
                /\ vel' = (Convert(f1, Theta(clockSec)) + Quarter) % N
                /\ first' = f1
          /\ siteEpoch' = clockSec
          /\ pc' = "run"
-         /\ UNCHANGED <<lon, theta0, startSec, dt, plan, clockSec, k, join, zone>>
+         /\ UNCHANGED <<lon, theta0, startSec, dt, plan, clockSec, k, join, zone, prevLon>>
 \* one propagation of d seconds: the clock advances; Terrestrial.propagate evaluates the
 \* Earth-fixed position at its own idea of "start + final_time"
 Advance(d) == /\ d > 0
@@ -134,7 +147,7 @@ Advance(d) == /\ d > 0
               /\ siteEpoch' = invErr + clockSec + d + ZoneShift(k + 1)
               /\ inertial' = Inertial(invErr + clockSec + d + ZoneShift(k + 1))
               /\ vel' = (Inertial(invErr + clockSec + d + ZoneShift(k + 1)) + Quarter) % N
-              /\ UNCHANGED <<pc, lon, theta0, startSec, dt, plan, invErr, join, siteLon, first, zone>>
+              /\ UNCHANGED <<pc, lon, theta0, startSec, dt, plan, invErr, join, siteLon, first, zone, prevLon>>
 \* a scenario: every step is the configured physics step
 Step     == pc = "run" /\ plan = <<>> /\ k < MaxSteps /\ Advance(dt)
 \* the agent stepped directly with a plan of step sizes: a long first step (an elapsed time of
@@ -150,6 +163,9 @@ StartInversionExact == pc = "run" => invErr = 0
 \* C11: every conversion of the configuration is a function of the site and the epoch only,
 \* whatever the object was converted for before
 ConvertIgnoresHistory == \A a \in {theta0, Theta(clockSec)} : Convert(first, a) = (lon + a) % N
+\* C11: the site the dynamics holds is a function of the agent's CURRENT configuration only - not
+\* of what the same id (or the same object) stood for earlier in the process
+SiteFromCurrentConfig == pc = "run" => siteLon = lon
 \* C11: the reported Earth-fixed position is the configured one, at every step - including the
 \* state reported at the instant the agent is created / joins (k = 0), before any propagation
 SiteFixed           == pc = "run" => ReportedLon = lon
@@ -160,7 +176,8 @@ VelIsRotation       == pc = "run" => ReportedVelLon = (lon + Quarter) % N
 Emit == (pc = "run" /\ ((plan = <<>> /\ k = MaxSteps) \/ (plan # <<>> /\ k = Len(plan)))) =>
    PrintT("SITE " \o ToJson([startSec |-> startSec, dt |-> dt, steps |-> k, lon |-> lon, theta0 |-> theta0,
                              plan |-> plan, elapsed |-> clockSec, join |-> join,
-                             reused |-> IF first = theta0 THEN 0 ELSE 1, zone |-> zone]))
+                             reused |-> IF first = theta0 THEN 0 ELSE 1, zone |-> zone,
+                             resited |-> IF prevLon = -1 THEN 0 ELSE 1]))
 
 Secs60      == 0..59
 DtsQuick    == {2, 7, 30, 60, 120, 300, 600, 900}
@@ -180,6 +197,7 @@ LonsAll     == {0, 1, 21600, 43200, 64800, 86399}
 ThetasAll   == {0, 12345, 86399}
 OnePrior    == {22663}            \* 6 h 17 min 43 s of Earth rotation away from angle 0
 NoPrior     == {}
+OneShift    == {30000}            \* the id's earlier site lay 125 degrees further east
 \* host zones: UTC; a fixed offset; daylight-saving zones whose switch (spring forward +3600 s /
 \* fall back -3600 s) falls after the 1st / 2nd step of the run, or outside the run
 ZonesUtc    == {UtcZone}
